@@ -37,6 +37,15 @@ try:
         if os.path.exists(demo):
             rc, out = cargo_test(["--test", "demo"])
             res["demo_with_patch"] = "fail" if rc != 0 else "PASSES(!)"
+            if rc == 0:
+                # a break that only the release profile has: the demo must fail there with the patch and pass without it
+                rc, out = cargo_test(["--release", "--test", "demo"])
+                if rc != 0:
+                    subprocess.run(["git", "apply", "-R", "--whitespace=nowarn", os.path.join(seed, "patch.diff")], cwd=dst, capture_output=True, text=True)
+                    rc0, out0 = cargo_test(["--release", "--test", "demo"])
+                    subprocess.run(["git", "apply", "--whitespace=nowarn", os.path.join(seed, "patch.diff")], cwd=dst, capture_output=True, text=True)
+                    res["demo_with_patch"] = "fail (release profile only)" if rc0 == 0 else "PASSES(!) in debug; release fails with and without"
+                    res["demo_without_patch"] = "pass" if rc0 == 0 else "FAIL (release)"
             os.remove(os.path.join(dst, "tests", "demo.rs"))
         rc, out = cargo_test(["--lib"])
         res["suite_with_patch"] = "green" if rc == 0 else "RED"
